@@ -71,6 +71,7 @@ var Funcs = map[string]func() string{
 	"ticker-loop":           tickerLoop,
 	"nested-select":         nestedSelect,
 	"struct-with-timers":    structWithTimers,
+	"sync-pool":             syncPool,
 }
 
 func switchEmptyCases() string {
@@ -745,4 +746,21 @@ func structWithTimers() string {
 	sort.Strings(got)
 	_ = stopped
 	return strings.Join(got, "")
+}
+
+var bufPool = sync.Pool{New: func() interface{} { return new(strings.Builder) }}
+
+func syncPool() string {
+	local := &sync.Pool{}
+	if local.Get() != nil {
+		return "non-nil from empty pool"
+	}
+	b := bufPool.Get().(*strings.Builder)
+	b.Reset()
+	b.WriteString("x")
+	out := b.String()
+	bufPool.Put(b)
+	local.Put(out)
+	got, _ := local.Get().(string)
+	return out + got
 }
